@@ -27,6 +27,7 @@ import (
 	"net"
 	"os"
 	"runtime"
+	"runtime/debug"
 	"strconv"
 	"strings"
 	"sync"
@@ -90,6 +91,7 @@ type c16Ev struct {
 	N   int    `json:"n,omitempty"`
 	R   string `json:"r,omitempty"`
 	O   []int  `json:"o,omitempty"`
+	K   string `json:"k,omitempty"` // start: tcp | udp
 }
 
 var (
@@ -295,6 +297,89 @@ type c16Hist struct {
 	closerBusy bool                 // an rc.Close() is in flight on its own goroutine
 	closerGoid int64                // (mu)
 	closerDone chan struct{}
+	// a call into the code under test panicked: the handle counts as unusable, the history stops
+	dead     atomic.Bool
+	pmu      sync.Mutex // its own lock: a panic can surface while mu is held further up the stack
+	panicWhy []string
+}
+
+// Every call into the code under test (TCP / UDP / Close / the constructor, on the controller as well as on
+// the goroutines the harness spawns for them, incl. the kick stream) runs under recover: a panic is a verdict
+// of its own, never the death of the process.  The boundary log written so far stays what it is.
+func (h *c16Hist) guard(what string, f func()) (panicked bool) {
+	defer func() {
+		if r := recover(); r != nil {
+			panicked = true
+			at := c16PanicSite(string(debug.Stack()))
+			h.dead.Store(true)
+			h.pmu.Lock()
+			h.panicWhy = append(h.panicWhy, fmt.Sprintf("call panicked: %s: %v%s", what, r, at))
+			h.pmu.Unlock()
+		}
+	}()
+	f()
+	return false
+}
+
+// wait for ch: 0 = it fired, 1 = limit reached, 2 = a call of this history has panicked and ch did not fire
+// within a second of that (the panic may have left rc.m locked: whoever queues on it never comes back; that
+// is the panic's doing, not a harness timeout)
+func (h *c16Hist) waitCh(ch <-chan struct{}, limit time.Duration) int {
+	end := time.Now().Add(limit)
+	var deadSince time.Time
+	for {
+		select {
+		case <-ch:
+			return 0
+		case <-time.After(20 * time.Millisecond):
+		}
+		now := time.Now()
+		if h.dead.Load() {
+			if deadSince.IsZero() {
+				deadSince = now
+			} else if now.Sub(deadSince) > time.Second {
+				return 2
+			}
+		}
+		if now.After(end) {
+			return 1
+		}
+	}
+}
+
+// first frame below the runtime's panic machinery: " (at pkg.func file:line)"
+func c16PanicSite(stack string) string {
+	lines := strings.Split(stack, "\n")
+	seen := false
+	for i := 0; i+1 < len(lines); i++ {
+		ln := lines[i]
+		if strings.HasPrefix(ln, "\t") || strings.HasPrefix(ln, "goroutine ") {
+			continue
+		}
+		if strings.HasPrefix(ln, "panic(") || strings.HasPrefix(ln, "runtime.") {
+			seen = seen || strings.HasPrefix(ln, "panic(") || strings.Contains(ln, "anic")
+			continue
+		}
+		if !seen {
+			continue
+		}
+		fn := ln
+		if k := strings.LastIndex(fn, "("); k > 0 {
+			fn = fn[:k]
+		}
+		if k := strings.LastIndex(fn, "/"); k >= 0 {
+			fn = fn[k+1:]
+		}
+		loc := strings.TrimSpace(lines[i+1])
+		if k := strings.Index(loc, " +0x"); k > 0 {
+			loc = loc[:k]
+		}
+		if k := strings.LastIndex(loc, "/"); k >= 0 {
+			loc = loc[k+1:]
+		}
+		return " (at " + fn + " " + loc + ")"
+	}
+	return ""
 }
 
 func (h *c16Hist) who() int {
@@ -386,7 +471,9 @@ func (h *c16Hist) connectedFunc(c Client, info *HandshakeInfo, n int) {
 		if cl, ok := rc.client.(*clientImpl); ok {
 			go func() {
 				// kick stream: lets the server disconnect this client (TrafficLogger says no)
-				_, _ = cl.TCP(fmt.Sprintf("kick%d:1", n))
+				h.guard(fmt.Sprintf("TCP() of the kick stream on connection %d", n), func() {
+					_, _ = cl.TCP(fmt.Sprintf("kick%d:1", n))
+				})
 			}()
 		}
 	}
@@ -548,6 +635,7 @@ func c16OnRcMutex(dump string, id int64) bool {
 // dial, parked at a hold, or - while somebody is parked at a hold - queued on rc.m
 func (h *c16Hist) settle() {
 	deadline := time.Now().Add(20 * time.Second)
+	var deadSince time.Time
 	var buf []byte
 	for spin := 0; ; spin++ {
 		var pend []int64
@@ -607,6 +695,13 @@ func (h *c16Hist) settle() {
 				return
 			}
 		}
+		if h.dead.Load() {
+			if deadSince.IsZero() {
+				deadSince = time.Now()
+			} else if time.Since(deadSince) > time.Second {
+				return // see waitCh
+			}
+		}
 		if time.Now().After(deadline) {
 			h.fail("harness: calls in flight did not settle")
 			return
@@ -632,6 +727,7 @@ func (h *c16Hist) closeAsync() {
 	h.closerGoid = 0
 	h.closerDone = make(chan struct{})
 	done := h.closerDone
+	nth := h.nClose
 	for o := 0; o < c16NG; o++ {
 		if h.busy[o] {
 			h.startSeqOK[o] = false
@@ -645,12 +741,15 @@ func (h *c16Hist) closeAsync() {
 		h.mu.Lock()
 		h.closerGoid = id
 		h.mu.Unlock()
-		_ = h.rc.Close()
+		defer close(done)
+		if h.guard(fmt.Sprintf("Close() number %d", nth), func() { _ = h.rc.Close() }) {
+			h.log(c16Ev{E: "closeend", R: "panic"})
+			return
+		}
 		h.mu.Lock()
 		h.rcClosed = true
 		h.logLocked(c16Ev{E: "closeend"})
 		h.mu.Unlock()
-		close(done)
 	}()
 }
 
@@ -658,11 +757,54 @@ func (h *c16Hist) waitCloser() {
 	if !h.closerBusy {
 		return
 	}
-	select {
-	case <-h.closerDone:
+	switch h.waitCh(h.closerDone, 15*time.Second) {
+	case 0:
 		h.closerBusy = false
-	case <-time.After(15 * time.Second):
+	case 1:
 		h.fail("harness: timeout waiting for Close")
+	}
+}
+
+// After a panicked call: let everything that is still parked go and give the calls in flight a short
+// while to come back; whoever does not (the panic may have left rc.m locked) is left behind, without a
+// harness-timeout entry of its own: the panic is the verdict.
+func (h *c16Hist) abandon() {
+	h.mu.Lock()
+	for g := 0; g < c16NG; g++ {
+		h.holds[g] = nil
+		if h.held[g] != "" {
+			h.held[g] = ""
+			select {
+			case h.holdCh[g] <- struct{}{}:
+			default:
+			}
+		}
+		if h.busy[g] && h.gates[g] != nil {
+			select {
+			case h.gates[g] <- "ok":
+			default:
+			}
+		}
+	}
+	h.mu.Unlock()
+	deadline := time.Now().Add(2 * time.Second)
+	for g := 0; g < c16NG; g++ {
+		if !h.busy[g] {
+			continue
+		}
+		select {
+		case <-h.done[g]:
+		case <-time.After(time.Until(deadline)):
+		}
+		h.busy[g] = false
+		h.isParked[g] = false
+	}
+	if h.closerBusy {
+		select {
+		case <-h.closerDone:
+		case <-time.After(2 * time.Second):
+		}
+		h.closerBusy = false
 	}
 }
 
@@ -760,23 +902,38 @@ func (h *c16Hist) startCall(g int, kind, mode string, hold []string) {
 	go func() {
 		c16Goids.Store(c16Goid(), &c16Who{h, g})
 		defer c16Goids.Delete(c16Goid())
+		defer close(done)
 		h.mu.Lock()
 		h.goid[g] = c16Goid()
-		h.logLocked(c16Ev{E: "start", G: g, N: cseq})
+		h.logLocked(c16Ev{E: "start", G: g, N: cseq, K: map[bool]string{true: "udp", false: "tcp"}[kind == "udp"]})
 		h.mu.Unlock()
 		var err error
+		what := fmt.Sprintf("TCP() number %d of goroutine %d", cseq, g)
 		if kind == "udp" {
-			var u HyUDPConn
-			u, err = h.rc.UDP()
-			if u != nil {
-				_ = u.Close()
+			what = fmt.Sprintf("UDP() number %d of goroutine %d", cseq, g)
+		}
+		if h.guard(what, func() {
+			if kind == "udp" {
+				var u HyUDPConn
+				u, err = h.rc.UDP()
+				if u != nil {
+					_ = u.Close()
+				}
+			} else {
+				var c net.Conn
+				c, err = h.rc.TCP(fmt.Sprintf("c%d-%s-%d:80", g, mode, cseq))
+				if c != nil {
+					_ = c.Close()
+				}
 			}
-		} else {
-			var c net.Conn
-			c, err = h.rc.TCP(fmt.Sprintf("c%d-%s-%d:80", g, mode, cseq))
-			if c != nil {
-				_ = c.Close()
-			}
+		}) {
+			// no return value to classify: the panic is the verdict, the sequential clauses do not apply
+			h.mu.Lock()
+			h.logLocked(c16Ev{E: "ret", G: g, R: "panic"})
+			h.lastRet = "panic"
+			h.lastRetSeq = false
+			h.mu.Unlock()
+			return
 		}
 		r := c16Class(err)
 		h.mu.Lock()
@@ -815,30 +972,40 @@ func (h *c16Hist) startCall(g int, kind, mode string, hold []string) {
 		h.lastRet = r
 		h.lastRetSeq = h.startSeqOK[g]
 		h.mu.Unlock()
-		close(done)
 	}()
 }
 
 func (h *c16Hist) waitDone(g int, what string) bool {
-	select {
-	case <-h.done[g]:
+	switch h.waitCh(h.done[g], 15*time.Second) {
+	case 0:
 		h.busy[g] = false
 		h.isParked[g] = false
 		return true
-	case <-time.After(15 * time.Second):
+	case 1:
 		h.fail("harness: timeout waiting for call of goroutine " + strconv.Itoa(g) + " (" + what + ")")
-		return false
 	}
+	return false
 }
 
 func (h *c16Hist) waitParkedOrDone(g int) {
-	select {
-	case <-h.done[g]:
-		h.busy[g] = false
-	case <-h.parked[g]:
-		h.isParked[g] = true
-	case <-time.After(15 * time.Second):
-		h.fail("harness: timeout waiting for call of goroutine " + strconv.Itoa(g))
+	end := time.Now().Add(15 * time.Second)
+	for {
+		select {
+		case <-h.done[g]:
+			h.busy[g] = false
+			return
+		case <-h.parked[g]:
+			h.isParked[g] = true
+			return
+		case <-time.After(20 * time.Millisecond):
+		}
+		if h.dead.Load() {
+			return
+		}
+		if time.Now().After(end) {
+			h.fail("harness: timeout waiting for call of goroutine " + strconv.Itoa(g))
+			return
+		}
 	}
 }
 
@@ -986,6 +1153,8 @@ type c16Out struct {
 	Nsk  int     `json:"nsock"`
 	Cl   []int   `json:"closes"`
 	Err  string  `json:"err,omitempty"`
+	// a call into the code under test panicked (recovered by the harness): evs is the log up to there
+	Panicked bool `json:"panicked,omitempty"`
 }
 
 func c16Run(i int, c c16Case, tlsc server.TLSConfig) (out c16Out) {
@@ -1022,9 +1191,11 @@ func c16Run(i int, c c16Case, tlsc server.TLSConfig) (out c16Out) {
 		}
 	}
 	h.log(c16Ev{E: "init", Ok: c.Lazy})
-	cli, err := NewReconnectableClient(h.configFunc, h.connectedFunc, c.Lazy)
-	h.log(c16Ev{E: "initend", R: c16Class(err)})
-	if err != nil {
+	var cli Client
+	if h.guard("NewReconnectableClient()", func() { cli, err = NewReconnectableClient(h.configFunc, h.connectedFunc, c.Lazy) }) {
+		h.log(c16Ev{E: "initend", R: "panic"})
+		out.Gone = true
+	} else if h.log(c16Ev{E: "initend", R: c16Class(err)}); err != nil {
 		out.Gone = true
 		if cli != nil {
 			h.fail("constructor returned both a client and an error")
@@ -1038,6 +1209,10 @@ func c16Run(i int, c c16Case, tlsc server.TLSConfig) (out c16Out) {
 		h.rc = cli.(*reconnectableClientImpl)
 		h.quiet()
 		for _, st := range c.Steps {
+			if h.dead.Load() {
+				// a call panicked: the handle is unusable (the panic may have left rc.m locked), the history ends here
+				break
+			}
 			switch st.Op {
 			case "fault":
 				h.mu.Lock()
@@ -1078,7 +1253,10 @@ func c16Run(i int, c c16Case, tlsc server.TLSConfig) (out c16Out) {
 				h.nClose++
 				h.logLocked(c16Ev{E: "closebegin"})
 				h.mu.Unlock()
-				_ = h.rc.Close()
+				if h.guard(fmt.Sprintf("Close() number %d", h.nClose), func() { _ = h.rc.Close() }) {
+					h.log(c16Ev{E: "closeend", R: "panic"})
+					break
+				}
 				h.mu.Lock()
 				h.rcClosed = true
 				h.logLocked(c16Ev{E: "closeend"})
@@ -1106,7 +1284,13 @@ func c16Run(i int, c c16Case, tlsc server.TLSConfig) (out c16Out) {
 					h.waitDone(g, "burst")
 				}
 			}
+			if h.dead.Load() {
+				break
+			}
 			h.quiet()
+		}
+		if h.dead.Load() {
+			h.abandon()
 		}
 		// drain
 		h.openAll()
@@ -1116,7 +1300,9 @@ func c16Run(i int, c c16Case, tlsc server.TLSConfig) (out c16Out) {
 			}
 		}
 		h.waitCloser()
-		h.quiet()
+		if !h.dead.Load() {
+			h.quiet()
+		}
 		h.mu.Lock()
 		// what the code guarantees about repeated closes (theorem C16_close_count_bound): a socket
 		// is closed at most once plus once per rc.Close() call
@@ -1127,9 +1313,26 @@ func c16Run(i int, c c16Case, tlsc server.TLSConfig) (out c16Out) {
 		}
 		h.logging = false
 		h.mu.Unlock()
-		_ = h.rc.Close()
+		// the final Close is a call like any other (a handle that already panicked may keep rc.m: do not wait for it for ever)
+		fin := make(chan struct{})
+		go func() {
+			defer close(fin)
+			h.guard("Close() at the end of the history", func() { _ = h.rc.Close() })
+		}()
+		if !h.dead.Load() {
+			<-fin
+		} else {
+			select {
+			case <-fin:
+			case <-time.After(2 * time.Second):
+			}
+		}
 	}
 	h.mu.Lock()
+	h.pmu.Lock()
+	h.why = append(h.why, h.panicWhy...)
+	out.Panicked = len(h.panicWhy) > 0
+	h.pmu.Unlock()
 	out.Evs = h.evs
 	out.Nsk = len(h.socks)
 	for _, sk := range h.socks {
@@ -1215,7 +1418,25 @@ func TestVerifC16(t *testing.T) {
 	raw := vReadCases(t)
 	w := vOpenOut(t, "VERIF_OUT")
 	defer w.Close()
-	outs := make([]c16Out, len(raw))
+	// Crash safety: a record is written (and flushed) as soon as its history is finished, carrying its case
+	// index, and the index of every history is appended to $VERIF_OUT.started before it starts.  If the process
+	// dies all the same (a panic on a goroutine of the code under test that no harness frame can recover, a
+	// fatal error), the driver sees which histories were in flight and runs those again one per process.
+	var wmu sync.Mutex
+	started, _ := os.OpenFile(os.Getenv("VERIF_OUT")+".started", os.O_CREATE|os.O_TRUNC|os.O_WRONLY|os.O_APPEND, 0o644)
+	if started != nil {
+		defer started.Close()
+	}
+	emit := func(o c16Out) {
+		if o.Err != "" {
+			o.Ok = false
+			o.Why = "harness error: " + o.Err
+		}
+		wmu.Lock()
+		w.Emit(o)
+		w.w.Flush()
+		wmu.Unlock()
+	}
 	workers := 8
 	if v := os.Getenv("VERIF_C16_WORKERS"); v != "" {
 		workers, _ = strconv.Atoi(v)
@@ -1229,14 +1450,23 @@ func TestVerifC16(t *testing.T) {
 			for i := range idx {
 				var c c16Case
 				if err := json.Unmarshal(raw[i], &c); err != nil {
-					outs[i] = c16Out{I: i, Err: "bad case: " + err.Error()}
+					emit(c16Out{I: i, Err: "bad case: " + err.Error()})
 					continue
 				}
 				if c.K == "class" {
-					outs[i] = c16Out{I: i, Ok: true}
+					emit(c16Out{I: i, Ok: true})
 					continue
 				}
-				outs[i] = c16Run(i, c, tlsc)
+				if started != nil {
+					wmu.Lock()
+					fmt.Fprintf(started, "%d\n", i)
+					wmu.Unlock()
+				}
+				var o c16Out
+				if p, msg := vCatch(func() { o = c16Run(i, c, tlsc) }); p {
+					o = c16Out{I: i, Err: "the harness itself panicked: " + msg}
+				}
+				emit(o)
 			}
 		}()
 	}
@@ -1245,11 +1475,4 @@ func TestVerifC16(t *testing.T) {
 	}
 	close(idx)
 	wg.Wait()
-	for i := range outs {
-		if outs[i].Err != "" {
-			outs[i].Ok = false
-			outs[i].Why = "harness error: " + outs[i].Err
-		}
-		w.Emit(outs[i])
-	}
 }
